@@ -43,7 +43,9 @@ func (w *Waiter) Wait(ctx context.Context) (ok bool) {
 	// For once schedule, for example, we need to get it only once.
 	waitFor := next.Sub(w.lastNow)
 	if waitFor <= 0 {
-		w.overdueDuration = 0 - waitFor
+		// The token is already due by the cached clock; measure its real lateness with a fresh one.
+		w.lastNow = time.Now()
+		w.overdueDuration = w.lastNow.Sub(next)
 		return true
 	}
 	w.lastNow = time.Now()
